@@ -152,6 +152,20 @@ def check_small(ctx, k):
     ctx.expect(paths, ret=1, abort=1)
 
 
+def check_bm_cast(ctx, k):
+    """BM: function representations translate to a tagged address range that is not sandbox memory"""
+    size = 1 << 32
+    b0 = ctx.sandbox_base(32, "b0", aligned=False)
+    rep = ctx.sym("rep", 32)
+    paths = ctx.run(k, [b0, rep])
+    for q in paths:
+        if q.status == "ret":
+            ctx.require(q, z3.Or(q.ret == 0, ctx.in_region(q.ret, b0, size)),
+                        "a tainted data pointer obtained by casting is null or inside the sandbox region (a function pointer's application-side value is not)")
+    ctx.only(paths, "ret", "abort")
+    ctx.expect(paths, ret=1)
+
+
 def jobs(tier, seed):
     out = []
     backends = [("B32", 32)] + ([("B16", 16)] if tier == "thorough" else [])
@@ -168,4 +182,6 @@ def jobs(tier, seed):
     ssrc = '#include "verif_sandbox.hpp"\nusing S = B32S;\n#include "C03_small.inc"\n'
     out.append(Job("C03_B32S", ssrc, [dict(name="B32S " + k, fn=check_small, kw=dict(k=k)) for k in ("k_small_malloc_int", "k_small_malloc_vs24", "k_small_accept", "k_small_assign")],
                    native=False))
+    for k in ("k_bm_fn_to_data", "k_bm_data_to_data"):
+        out.append(Job("C03_BM_" + k, '#include "C03_bm.inc"\n', [dict(name="BM " + k, fn=check_bm_cast, kw=dict(k=k), optional=(k == "k_bm_fn_to_data"))], native=False))
     return out
